@@ -265,7 +265,7 @@ def run(res, tier):
         res.instance("C08.4.lookup-in-own-group", i["key"], i["at"], i["detail"])
     for v in sub.violations:
         res.violation("C08.4.lookup-in-own-group", v["file"], v["function"], v["key"], v["line"], v["msg"] + " - whether that happens depends on the block size and the grouping mode")
-    res.floor("C08.4", n4, 10, "accessor calls at looked-up positions")
+    res.floor("C08.4", n4, 6, "accessor calls at looked-up positions")
 
 
 def block_size_is_a_bound(facts, res, R="C08.5.block-size-is-a-bound"):
